@@ -3,6 +3,18 @@ from inspect import signature
 
 from sklearn.utils import _param_validation as skparamvalid
 
+try:
+    from sklearn.utils.validation import validate_data as _sk_validate_data
+except ImportError:  # scikit-learn < 1.6 only has the BaseEstimator method
+    _sk_validate_data = None
+
+
+def validate_data(estimator, X, **kwargs):
+    # BaseEstimator._validate_data was removed in scikit-learn 1.7 in favour of a function
+    if _sk_validate_data is not None:
+        return _sk_validate_data(estimator, X=X, **kwargs)
+    return estimator._validate_data(X, **kwargs)
+
 
 class InvalidParameterError(ValueError, TypeError):
     pass
